@@ -10,21 +10,25 @@ import (
 // scripts are programmatic nemeses: they react to the state of the cluster
 // (who is leader) instead of following a fixed timetable.
 var scripts = map[string]func(rn *Runner){
-	"fig8x":       scriptFig8x,
-	"cfgtrunc":    scriptCfgTrunc,
-	"snapcfg":     scriptSnapCfg,
-	"xfervote":    scriptXferVote,
-	"snapterm":    scriptSnapTerm,
-	"cfggate":     scriptCfgGate,
-	"longstale":   scriptLongStale,
-	"notifyblock": scriptNotifyBlock,
-	"cfgquorum":   scriptCfgQuorum,
-	"staletn":     scriptStaleTN,
-	"promote":     scriptPromote,
-	"dupae":       scriptDupAE,
-	"monofail":    scriptMonoFail,
-	"snaptrunc":   scriptSnapTrunc,
-	"snapleader":  scriptSnapLeader,
+	"fig8x":        scriptFig8x,
+	"cfgtrunc":     scriptCfgTrunc,
+	"snapcfg":      scriptSnapCfg,
+	"xfervote":     scriptXferVote,
+	"snapterm":     scriptSnapTerm,
+	"cfggate":      scriptCfgGate,
+	"longstale":    scriptLongStale,
+	"notifyblock":  scriptNotifyBlock,
+	"cfgquorum":    scriptCfgQuorum,
+	"staletn":      scriptStaleTN,
+	"promote":      scriptPromote,
+	"dupae":        scriptDupAE,
+	"monofail":     scriptMonoFail,
+	"snaptrunc":    scriptSnapTrunc,
+	"snapleader":   scriptSnapLeader,
+	"snapfallback": scriptSnapFallback,
+	"restorefail":  scriptRestoreFail,
+	"snapvote":     scriptSnapVote,
+	"restoreedge":  scriptRestoreEdge,
 }
 
 func (rn *Runner) el() time.Duration {
@@ -63,6 +67,9 @@ func (rn *Runner) cutGroups(a map[*Node]bool) {
 }
 
 func (rn *Runner) applyBurst(nd *Node, n int, tag string) {
+	if nd == nil {
+		return
+	}
 	for i := 0; i < n; i++ {
 		rn.ctr[12]++
 		payload := fmt.Sprintf("%s.%d k0", tag, rn.ctr[12])
@@ -1028,5 +1035,175 @@ func scriptSnapLeader(rn *Runner) {
 		}
 		c.Net.Heal()
 		time.Sleep(3 * rn.el())
+	}
+}
+
+// scriptSnapFallback (C10): the newest snapshot of a server is unreadable when it restarts (it is still
+// listed; Open fails), so start-up falls back to the one before. Everything the server reports afterwards -
+// last snapshot position, configuration (a membership change lies between the two snapshots), FSM content -
+// has to fit the snapshot it really restored plus its log (TrailingLogs keeps the log).
+func scriptSnapFallback(rn *Runner) {
+	c := rn.C
+	for round := 0; round < 2; round++ {
+		L := rn.stableLeader()
+		if L == nil {
+			return
+		}
+		spare := c.Nodes[len(c.Nodes)-1]
+		rn.applyBurst(L, 4+rn.rng.Intn(5), "fa")
+		time.Sleep(rn.el())
+		c.Snapshot(90, L)
+		time.Sleep(rn.el() / 2)
+		op := []string{"addnonvoter", "remove"}[round%2]
+		c.Membership(91, L, op, spare, 0, 100*time.Millisecond)
+		rn.applyBurst(L, 4+rn.rng.Intn(5), "fb")
+		time.Sleep(rn.el())
+		c.Snapshot(90, L)
+		time.Sleep(rn.el() / 2)
+		rn.applyBurst(L, 1+rn.rng.Intn(4), "fc")
+		time.Sleep(rn.el())
+		c.Crash(L)
+		ok := L.disk.DamageNewestSnapshot()
+		rn.note("%s restarts, newest snapshot damaged: %v", L.name, ok)
+		time.Sleep(rn.el() / 2)
+		c.Start(L)
+		time.Sleep(4 * rn.el())
+		for _, nd := range c.Nodes {
+			c.Reading(nd, "quiet")
+		}
+		rn.applyBurst(L, 2, "fd")
+		time.Sleep(2 * rn.el())
+	}
+}
+
+// scriptRestoreFail (C02, C12): a lagging follower receives a snapshot, stores it, and then cannot read it
+// back for the FSM (one failing Open): the install fails after the snapshot is on disk. Before the leader
+// retries it dies; the next leader still holds the whole log and probes the follower entry by entry. The
+// follower's FSM is where it was, so it must be fed every entry from there on.
+func scriptRestoreFail(rn *Runner) {
+	c := rn.C
+	for round := 0; round < 2; round++ {
+		L1 := rn.stableLeader()
+		if L1 == nil {
+			return
+		}
+		o := rn.othersOf(L1)
+		if len(o) < 2 {
+			return
+		}
+		F := o[0]
+		rn.applyBurst(L1, 2+rn.rng.Intn(3), "ra")
+		time.Sleep(rn.el() / 2)
+		rn.cutOff(F)
+		rn.applyBurst(L1, 6+rn.rng.Intn(6), "rb")
+		time.Sleep(rn.el())
+		c.Snapshot(90, L1) // only L1 compacts; the others keep their logs
+		time.Sleep(rn.el() / 2)
+		if c.Leader() != L1 {
+			c.Net.Heal()
+			continue
+		}
+		F.disk.FailNextOpens(1)
+		rn.note("L1=%s F=%s: F cannot read the snapshot it is sent", L1.name, F.name)
+		c.Net.Heal()
+		for i := 0; i < 400 && F.disk.OpenFailsLeft() > 0; i++ {
+			time.Sleep(rn.el() / 40)
+		}
+		if F.disk.OpenFailsLeft() > 0 {
+			F.disk.FailNextOpens(0)
+			rn.note("no snapshot was sent")
+			continue
+		}
+		c.Crash(L1) // before it retries the install
+		time.Sleep(5 * rn.el())
+		rn.applyBurst(c.Leader(), 2, "rc")
+		time.Sleep(2 * rn.el())
+		c.Start(L1)
+		time.Sleep(3 * rn.el())
+	}
+}
+
+// scriptSnapVote (C03, C06): a voter whose whole log has been compacted into its snapshot (TrailingLogs 0)
+// restarts: its last entry is the snapshot's. The only other server it can talk to missed the entries
+// that were committed meanwhile and campaigns (no pre-vote): it must be refused, however the voter looks
+// up its own last entry.
+func scriptSnapVote(rn *Runner) {
+	c := rn.C
+	for round := 0; round < 2; round++ {
+		A := rn.stableLeader()
+		if A == nil {
+			return
+		}
+		o := rn.othersOf(A)
+		if len(o) < 2 {
+			return
+		}
+		B, C := o[0], o[1]
+		rn.applyBurst(A, 2+rn.rng.Intn(3), "va")
+		time.Sleep(rn.el())
+		rn.cutOff(C)
+		rn.applyBurst(A, 4+rn.rng.Intn(8), "vb") // committed by A and B (and whoever else is there)
+		time.Sleep(rn.el())
+		c.Snapshot(90, B)
+		time.Sleep(rn.el() / 2)
+		rn.note("A=%s goes down, B=%s (log compacted into its snapshot) restarts, C=%s lacks the committed entries", A.name, B.name, C.name)
+		c.Crash(B)
+		for _, nd := range c.Nodes {
+			if nd != B && nd != C {
+				c.Crash(nd)
+			}
+		}
+		c.Net.Heal()
+		time.Sleep(rn.el() / 4)
+		c.Start(B)
+		time.Sleep(6 * rn.el()) // B and C alone: only B may win (if they are a majority at all)
+		for _, nd := range c.Nodes {
+			c.Start(nd)
+		}
+		time.Sleep(4 * rn.el())
+	}
+}
+
+// scriptRestoreEdge (C20, C12): a deposed leader keeps k uncommitted entries; the next leader restores a
+// user snapshot at a moment chosen so that the index the restore burns is exactly (or one off) the old
+// leader's last index: its log then ends AT the snapshot it is sent, with an entry of an older term.
+func scriptRestoreEdge(rn *Runner) {
+	c := rn.C
+	for round := 0; round < 3; round++ {
+		A := rn.stableLeader()
+		if A == nil {
+			return
+		}
+		rn.applyBurst(A, 2, "ea")
+		time.Sleep(rn.el())
+		rn.cutOff(A)
+		k := 3 + rn.rng.Intn(4)
+		rn.applyBurst(A, k, "estale")
+		time.Sleep(rn.el() / 10)
+		aLast := A.disk.LastLogIndex()
+		B := rn.waitNewLeader(A, nil, 20*rn.Sc.P.ElectionMs)
+		if B == nil {
+			c.Net.Heal()
+			continue
+		}
+		time.Sleep(rn.el() / 2)
+		// bring B to aLast-1+d (d = -1, 0, 0, +1): the restore burns B's last index + 1
+		d := pick(rn.rng, -1, 0, 0, 1)
+		for i := 0; i < 40; i++ {
+			in := B.Cur()
+			if in == nil || int(in.r.LastIndex()) >= int(aLast)-1+d {
+				break
+			}
+			rn.ctr[12]++
+			c.Apply(12, B, fmt.Sprintf("efill.%d k0", rn.ctr[12]), 50*time.Millisecond)
+		}
+		rn.restoreTag++
+		tag := rn.restoreTag
+		rn.note("A=%s ends at %d; B=%s restores with its last index at %d", A.name, aLast, B.name, B.disk.LastLogIndex())
+		c.UserRestore(93, B, 0, tag, time.Second)
+		rn.applyBurst(B, 2+rn.rng.Intn(3), "elate")
+		time.Sleep(rn.el())
+		c.Net.Heal()
+		time.Sleep(5 * rn.el())
 	}
 }
